@@ -87,8 +87,8 @@ Lemma l_reg_wake_ok x ok y : cok x -> l_reg_wake x ok = Some y -> cok y.
 Proof. destruct ok; open_ctx x; unfold l_reg_wake, rspec, rdes; simpl; destruct lc; simpl; try (intros; discriminate); destruct fr; destruct wf; local_tac. Qed.
 Lemma l_reg_acc_ok x ok y : cok x -> l_reg_acc x ok = Some y -> cok y.
 Proof. destruct ok; open_ctx x; unfold l_reg_acc, rspec, rdes; simpl; destruct lc; simpl; try (intros; discriminate); destruct fr; destruct wf; local_tac. Qed.
-Lemma l_announce_ok x n y : cok x -> l_announce x n = Some y -> cok y.
-Proof. open_ctx x; unfold l_announce, rspec, rdes; simpl; destruct lc; simpl; try (intros; discriminate); destruct fr; destruct wf; local_tac. Qed.
+Lemma l_announce_ok x n cb y : cok x -> l_announce x n cb = Some y -> cok y.
+Proof. destruct cb; open_ctx x; unfold l_announce, rspec, rdes; simpl; destruct lc; simpl; try (intros; discriminate); destruct fr; destruct wf; local_tac. Qed.
 Lemma l_use_ok x y : cok x -> l_use x = Some y -> cok y.
 Proof. open_ctx x; unfold l_use, rspec, rdes; simpl; destruct lc; simpl; try (intros; discriminate); destruct fr; destruct wf; local_tac. Qed.
 Lemma l_rd_ok x bs y : cok x -> l_rd x bs = Some y -> cok y.
@@ -100,8 +100,8 @@ Proof. open_ctx x; unfold l_shut, rspec, rdes; simpl; destruct lc; simpl; try (i
 Lemma l_accepterr_ok x y : cok x -> l_accepterr x = Some y -> cok y.
 Proof. destruct x as [[|] cn rf lc fl fd fr wk wf gt ef pb an nc nr nfd nfr ua]; unfold l_accepterr; simpl;
   try (intros; discriminate); destruct lc; simpl; try (intros; discriminate); destruct fr; destruct wf; local_tac. Qed.
-Lemma l_close_ok x hup y : cok x -> l_close x hup = Some y -> cok y.
-Proof. open_ctx x; unfold l_close, rspec, rdes; simpl; destruct lc; simpl; try (intros; discriminate); destruct fr; destruct wf; local_tac. Qed.
+Lemma l_close_ok x hup cb y : cok x -> l_close x hup cb = Some y -> cok y.
+Proof. destruct cb; open_ctx x; unfold l_close, rspec, rdes; simpl; destruct lc; simpl; try (intros; discriminate); destruct fr; destruct wf; local_tac. Qed.
 Lemma l_clearpop_ok x y : cok x -> l_clearpop x = Some y -> cok y.
 Proof. open_ctx x; unfold l_clearpop, rspec, rdes; simpl; destruct lc; simpl; try (intros; discriminate); destruct fr; destruct wf; local_tac. Qed.
 Lemma l_exitpop_ok x y : cok x -> l_exitpop x = Some y -> cok y.
@@ -177,7 +177,7 @@ Lemma l_reg_wake_same x ok y : l_reg_wake x ok = Some y -> same_stream x y.
 Proof. destruct x; unfold l_reg_wake; same_tac. Qed.
 Lemma l_reg_acc_same x ok y : l_reg_acc x ok = Some y -> same_stream x y.
 Proof. destruct x; unfold l_reg_acc; same_tac. Qed.
-Lemma l_close_same x hup y : l_close x hup = Some y -> same_stream x y.
+Lemma l_close_same x hup cb y : l_close x hup cb = Some y -> same_stream x y.
 Proof. destruct x; unfold l_close; same_tac. Qed.
 Lemma l_release_same x y r : l_release x = Some (y, r) -> same_stream x y.
 Proof. destruct x; unfold l_release; same_tac. Qed.
@@ -186,7 +186,7 @@ Proof. destruct x; unfold l_retain; same_tac. Qed.
 Lemma l_wrel_same x y r : l_wrel x = Some (y, r) -> same_stream x y.
 Proof. destruct x; unfold l_wrel; same_tac. Qed.
 (* the three that do touch it *)
-Lemma l_announce_fresh x n y : cok x -> l_announce x n = Some y -> k_conn y = n /\ k_got y = [] /\ k_eof y = false.
+Lemma l_announce_fresh x n cb y : cok x -> l_announce x n cb = Some y -> k_conn y = n /\ k_got y = [] /\ k_eof y = false.
 Proof.
   open_ctx x; unfold l_announce, cok, touch; simpl. destruct lc; simpl; try (intros; discriminate).
   intros H E. destruct H as (_ & _ & _ & _ & _ & Hp & _). destruct (Hp eq_refl) as (? & ? & ?). subst.
